@@ -92,17 +92,23 @@ def PolyCase.fn (p : PolyCase) : IFun Float :=
 def PolyCase.evalQ (p : PolyCase) (t : Rat) : Rat :=
   (p.c.map q).foldr (fun c acc => c + t * acc) 0
 
-/-- every root of `roots` inside `init` is covered by some returned interval; returned intervals lie in `init` -/
+/-- every root of `roots` inside `init` is covered by some returned interval; returned intervals lie in `init`.
+parry's `Interval` arithmetic does not round outward, so in floating point the enclosures of `f` and `f'` are only
+accurate up to the rounding error of their evaluation; near a root of multiplicity `m` that error moves / hides the root
+by `O(ε^(1/m))` (a perturbation of the coefficients by `ε` moves an `m`-fold root by `ε^(1/m)`).  The coverage tolerance
+therefore depends on the multiplicity: `1e-9` (simple), `1e-4` (double), `1e-2` (triple or more), relative to `1 + |root|`. -/
 def coverOracle (init : Interval Float) (roots : List Rat) (res : List (Interval Float)) : String :=
   let lo := q init.lo; let hi := q init.hi
   if res.any fun i => !(FloatIO.isFinite i.lo && FloatIO.isFinite i.hi) then "fail nonfinite-result-interval" else
   if res.any fun i => q i.hi < q i.lo then "fail inverted-result-interval" else
   if res.any fun i => q i.lo < lo || hi < q i.hi then "fail result-interval-outside-init" else
-  let tol : Rat := 1 / 1000000000
   let inside := roots.filter fun r => lo ≤ r ∧ r ≤ hi
-  match inside.filter (fun r => !(res.any fun i => q i.lo - tol * (1 + rabs r) ≤ r && r ≤ q i.hi + tol * (1 + rabs r))) with
+  let tolOf (r : Rat) : Rat :=
+    let m := (roots.filter (· == r)).length
+    (if m ≤ 1 then 1 / 1000000000 else if m = 2 then 1 / 10000 else 1 / 100) * (1 + rabs r)
+  match inside.filter (fun r => !(res.any fun i => q i.lo - tolOf r ≤ r && r ≤ q i.hi + tolOf r)) with
   | [] => if inside.isEmpty && res.isEmpty then "pass no-root-no-interval" else "pass"
-  | r :: _ => s!"fail root-not-covered root={Float.ofInt r.num / Float.ofNat r.den} intervals={res.length}"
+  | r :: _ => s!"fail root-not-covered root={Float.ofInt r.num / Float.ofNat r.den} multiplicity={(roots.filter (· == r)).length} intervals={res.length}"
 
 def handlerC (fn : String) : Option Handler :=
   match fn with
